@@ -388,23 +388,48 @@ func (eng *Engine) translate(unit, mode string, fn *ssa.Function, fc *FuncContra
 		vc.replayFrame = fr
 	}
 	fr.run(entry, "true")
-	// postconditions at every return
-	for ri, r := range fr.rets {
-		penv := fr.newEnv(r.st, entry)
+	// postconditions: all returns are merged into one exit point (one obligation per ensures clause)
+	if len(fr.rets) > 0 {
+		var ins []mergeIn
+		var gs []string
+		for _, r := range fr.rets {
+			ins = append(ins, mergeIn{r.guard, r.st})
+			gs = append(gs, r.guard)
+		}
+		exit := mergeStates(vc, ins)
+		exitGuard := or(gs...)
+		var results []string
+		for i := 0; i < fn.Signature.Results().Len(); i++ {
+			if len(fr.rets) == 1 {
+				results = append(results, fr.rets[0].results[i])
+				continue
+			}
+			c := vc.freshConst("ret", vc.sortOf(fn.Signature.Results().At(i).Type()))
+			for _, r := range fr.rets {
+				vc.assume(implies(r.guard, eq(c, r.results[i])))
+			}
+			results = append(results, c)
+		}
+		if len(fr.rets) > 1 {
+			// exactly the guards are mutually exclusive by construction; name the exit guard
+			gc := vc.freshConst("g_exit", "Bool")
+			vc.assume(eq(gc, exitGuard))
+			exitGuard = gc
+		}
+		penv := fr.newEnv(exit, entry)
 		fr.bindParams(penv)
 		penv.resolve = fvResolve
-		bindResults(penv, fn, r.results)
+		bindResults(penv, fn, results)
 		for k, c := range fc.Ensures {
 			t := fr.evalGoal(c, penv, "ensures")
 			label := c.Label
 			if label == "" {
 				label = fmt.Sprint(k)
 			}
-			vc.addObl(&Obligation{Name: fmt.Sprintf("%s#post.%s.ret%d", unit, label, ri), Kind: "post", Props: fc.Props,
-				Guard: r.guard, Goal: t, Src: c.Src, File: c.File, Line: c.Line, Pos: eng.pos(r.pos)})
+			vc.addObl(&Obligation{Name: fmt.Sprintf("%s#post.%s", unit, label), Kind: "post", Props: fc.Props,
+				Guard: exitGuard, Goal: t, Src: c.Src, File: c.File, Line: c.Line, Pos: eng.pos(fn.Pos())})
 		}
-		// frame: heap locations not listed in modifies are unchanged
-		fr.frameObligations(r, ri, entry)
+		fr.frameObligations(retRec{guard: exitGuard, st: exit, results: results}, 0, entry)
 	}
 	// allocation bound obligations (decoders): every make is bounded by contract expression "allocbound"
 	return vc, fr
@@ -533,7 +558,7 @@ func (fr *Frame) frameObligations(r retRec, ri int, entry *State) {
 			if len(allow[hv]) > 0 {
 				continue
 			}
-			vc.addObl(&Obligation{Name: fmt.Sprintf("%s#frame.%s.ret%d", vc.unit, hv, ri), Kind: "frame", Props: fc.Props, Guard: r.guard,
+			vc.addObl(&Obligation{Name: fmt.Sprintf("%s#frame.%s", vc.unit, hv), Kind: "frame", Props: fc.Props, Guard: r.guard,
 				Goal: eq(r.st.get(hv), entry.get(hv)), Src: "global " + hv + " is not listed in modifies"})
 			continue
 		}
@@ -579,7 +604,7 @@ func (fr *Frame) frameObligations(r retRec, ri int, entry *State) {
 			}
 		}
 		goal := fmt.Sprintf("(forall ((a Int)) (=> %s %s))", and(append([]string{"(< 0 a)", fmt.Sprintf("(< a %s)", next0)}, excl...)...), body)
-		vc.addObl(&Obligation{Name: fmt.Sprintf("%s#frame.%s.ret%d", vc.unit, hv, ri), Kind: "frame", Props: fc.Props, Guard: r.guard,
+		vc.addObl(&Obligation{Name: fmt.Sprintf("%s#frame.%s", vc.unit, hv), Kind: "frame", Props: fc.Props, Guard: r.guard,
 			Goal: goal, Src: "objects existing at entry and not listed in modifies are unchanged in " + hv})
 	}
 }
